@@ -3,22 +3,34 @@ package main
 import (
 	"encoding/hex"
 	"fmt"
+	"math/big"
 	"regexp"
 	"sort"
 	"strings"
 	"time"
 
+	sdkmath "cosmossdk.io/math"
 	sdk "github.com/cosmos/cosmos-sdk/types"
 	"github.com/ethereum/go-ethereum/common"
 
+	assetstypes "github.com/ExocoreNetwork/exocore/x/assets/types"
 	delegationtypes "github.com/ExocoreNetwork/exocore/x/delegation/types"
 	dogfoodtypes "github.com/ExocoreNetwork/exocore/x/dogfood/types"
 	epochstypes "github.com/ExocoreNetwork/exocore/x/epochs/types"
 	operatortypes "github.com/ExocoreNetwork/exocore/x/operator/types"
+	oracletypes "github.com/ExocoreNetwork/exocore/x/oracle/types"
 )
 
 func newGenWorld(env *Env, rng *RNG, seed uint64) *genWorld {
+	return newGenWorldCfg(env, rng, seed, false)
+}
+
+func newGenWorldCfg(env *Env, rng *RNG, seed uint64, withNST bool) *genWorld {
 	cfg := DefaultCfg(seed)
+	if withNST {
+		cfg.Assets = append(cfg.Assets, AssetSpec{Addr: nstAddrHex, Decimals: 18, Price: "1", PriceDec: 0})
+		xbResetOracleMem()
+	}
 	cfg.NOperators = 3
 	cfg.Powers = []int64{101, 100, 150}
 	cfg.EpochID = epochstypes.HourEpochID
@@ -182,6 +194,26 @@ func (w *genWorld) check(res roundTripResult, v1, v2 coreView, directed bool) {
 			env.Violate("C18.validate", "validate:delegation-txhash", "the delegation module's own export fails GenesisState.Validate as soon as an undelegation is pending: "+e, w.hist)
 			continue
 		}
+		if m == "oracle" && strings.Contains(e, "not found in stakerLisetAssets") {
+			// F-18l: the exported staker-list asset ids carry the store prefix
+			env.Violate("C18.validate", "oracle-stakerlist-key-doubled", "x/oracle GetAllStakerListAssets exports the full store key (NativeToken/stakerList/value/<assetID>) as asset id: the module's own export fails Validate: "+e, w.hist)
+			continue
+		}
+		if m == "oracle" && strings.Contains(e, "length not equal for stakerListAssets and stakerInfosAssets") {
+			// F-18m: the staker list entry of an NST asset outlives its last staker (empty list, no staker info left)
+			env.Violate("C18.validate", "validate:oracle-empty-stakerlist", "after the last native-restaking staker of an asset withdrew, x/oracle keeps an empty staker list for the asset and no staker info: the module's own export fails Validate: "+e, w.hist)
+			continue
+		}
+		if m == "assets" && strings.Contains(e, "unknown assetID for operator assets") && strings.Contains(e, assetstypes.ExocoreAssetID) {
+			// F-18j: a native-token delegation leaves an operator pool row under ExocoreAssetID, never a registered token
+			env.Violate("C18.validate", "validate:assets-native-pool", "after a native-token delegation the assets module's own export fails GenesisState.Validate (the operator pool row of "+assetstypes.ExocoreAssetID+" references a token that x/assets never lists): "+e, w.hist)
+			continue
+		}
+		if m == "assets" && strings.Contains(e, "not hex address for token") {
+			// F-18k: client chains with more than 20 address bytes are admitted by the precompile, rejected by Validate
+			env.Violate("C18.validate", "validate:assets-wide-address", "a token of a client chain with more than 20 address bytes (admitted by the assets precompile: addressLength >= 20) makes the assets module's own export fail GenesisState.Validate: "+e, w.hist)
+			continue
+		}
 		env.Violate("C18.validate", "validate:"+m, "exported "+m+" genesis fails Validate: "+e, w.hist)
 	}
 	env.Eval("C18.json")
@@ -189,6 +221,10 @@ func (w *genWorld) check(res roundTripResult, v1, v2 coreView, directed bool) {
 		if m == "operator" && strings.Contains(res.jsonWhere[i], "update_time") {
 			// F-18g (repaired): kept under its own sig so that a re-introduction is reported as such
 			env.Violate("C18.json", "operator-update-time", "InitGenesis changed an operator's commission update_time: "+res.jsonWhere[i], w.hist)
+			continue
+		}
+		if m == "oracle" && strings.Contains(res.jsonWhere[i], oracletypes.NativeTokenStakerListKeyPrefix+oracletypes.NativeTokenStakerListKeyPrefix) {
+			env.Violate("C18.json", "oracle-stakerlist-key-doubled", "the second export lists the native-restaking staker lists under asset ids with the store prefix prepended twice: "+res.jsonWhere[i], w.hist)
 			continue
 		}
 		env.Violate("C18.json", "json:"+m, "second export differs from the first: "+res.jsonWhere[i], w.hist)
@@ -234,6 +270,13 @@ func (w *genWorld) check(res roundTripResult, v1, v2 coreView, directed bool) {
 					}
 				}
 				continue
+			}
+			if m == "oracle" {
+				if b, err := hex.DecodeString(k[1:]); err == nil && strings.HasPrefix(string(b), oracletypes.NativeTokenStakerListKeyPrefix) {
+					// F-18l: the staker list is re-imported under prefix+prefix+assetID; prefix+assetID is missing
+					env.Violate("C18.store", "oracle-stakerlist-key-doubled", fmt.Sprintf("x/oracle staker list entry %q differs after the round trip (%c): SetStakerList prepends the store prefix to an exported asset id that already carries it", string(b), k[0]), w.hist)
+					continue
+				}
 			}
 			if why, ok := knownGapPrefixes[m][p]; ok {
 				gaps[why[:5]] = true
@@ -292,7 +335,25 @@ func (w *genWorld) randomOps(n int) {
 	for i := 0; i < n; i++ {
 		si := w.rng.Intn(len(w.stakers))
 		oi := w.rng.Intn(len(c.Operators))
-		switch w.rng.Pick(3, 4, 4, 1, 4, 1, 2) {
+		switch w.rng.Pick(3, 4, 4, 1, 4, 1, 2, 2, 1) {
+		case 7:
+			// withdraw part of what is deposited and not delegated
+			if free[si] == 0 {
+				continue
+			}
+			amt := 1 + w.rng.Int63n(free[si])
+			if w.rng.Chance(1, 8) {
+				amt = free[si] + 1 // more than withdrawable: must be rejected
+			}
+			err := w.withdraw(si, amt)
+			if err == nil {
+				free[si] -= amt
+			}
+			w.env.Outcome("op:withdraw:" + genErrClass(err))
+		case 8:
+			// a further client chain (20-byte addresses) and a token of it, through the assets precompile
+			w.nextChain++
+			w.env.Outcome("op:registerchain:" + w.registerWideChain(uint32(200+w.nextChain), 20))
 		case 6:
 			// opt into the second AVS and out again, in the same block or one block later
 			same := w.rng.Chance(1, 2)
@@ -380,20 +441,78 @@ func (w *genWorld) runOne(nOps int, directed bool, cont int) {
 	}
 	v1 := viewCore(c, committedCtx(c))
 	w.emitCore(v1)
+	a1 := viewAssets(c, committedCtx(c))
+	w.emitAssets(a1)
 	res := w.roundTripWith(cont, directed)
 	var v2 coreView
-	obs := "import-failed"
+	obs, aobs := "import-failed", "import-failed"
 	if res.c2 != nil {
 		v2 = res.post
 		obs = v2.obs()
+		// the module's own verdict on its export, then the re-imported stores
+		aobs = fmt.Sprintf("validate=%v init=ok %s", res.validateErr["assets"] == "", res.postAssets.obs())
 	}
 	w.op("gen.roundtrip", obs)
+	w.op("gen.assets", aobs)
 	w.check(res, v1, v2, directed)
 	w.env.Report.Histories++
 	if len(v1.unds) > 0 || len(v1.rev) > len(v1.cur) {
 		w.env.DistinctKey(fmt.Sprintf("u%d-q%d-p%d-%x", len(v1.unds), len(v1.qs), len(v1.prev), sha8([]byte(v1.obs()))))
 	}
 	w.env.Outcome(fmt.Sprintf("state:unds=%d,prev=%d", min(len(v1.unds), 3), min(len(v1.rev)-len(v1.cur), 2)))
+}
+
+// nativeDelegate delivers a signed MsgDelegation of the native token from the funded account to operator oi.
+func (w *genWorld) nativeDelegate(oi int, amt int64) string {
+	c := w.c
+	w.note("native-token MsgDelegation from=funded operator=%d amount=%d", oi, amt)
+	kv := []delegationtypes.KeyValue{{Key: c.Operators[oi].Acc.String(), Value: &delegationtypes.ValueField{Amount: sdkmath.NewInt(amt)}}}
+	bz, err := signedTx(c, c.Funded, 1000000, delegationtypes.NewMsgDelegation(assetstypes.ExocoreAssetID, c.Funded.Acc.String(), kv))
+	if err != nil {
+		return "sign:" + err.Error()
+	}
+	res, halt := c.DeliverRaw(bz)
+	if halt != "" {
+		return "halt"
+	}
+	if res.Code != 0 {
+		return fmt.Sprintf("rej:%d:%.80s", res.Code, res.Log)
+	}
+	return "ok"
+}
+
+// registerWideChain registers client chain `id` with `al`-byte addresses and a token of it, as the gateway contract would:
+// two top-level EVM calls into the assets precompile.
+func (w *genWorld) registerWideChain(id uint32, al uint8) string {
+	c := w.c
+	abis := xbLoadABIs(c)
+	call := func(method string, args ...interface{}) string {
+		data, err := abis.assets.Pack(method, args...)
+		if err != nil {
+			return "pack:" + err.Error()
+		}
+		m := abis.assets.Methods[method]
+		w.note("evm assets.%s from=gateway data=%s", method, hex.EncodeToString(data))
+		return xbEvmCall(c, c.Funded.Eth, xbAssetsAddr, data, &m).Class()
+	}
+	r1 := call("registerOrUpdateClientChain", id, al, "widechain", "meta", "ed25519")
+	tok := detBytes(c.Cfg.Seed, "widetoken", int(id))[:al]
+	r2 := call("registerToken", id, tok, uint8(9), "WTK", "meta", fmt.Sprintf("WTK%d,widechain,8", id))
+	return fmt.Sprintf("chain=%s token=%s", r1, r2)
+}
+
+// nst deposits / withdraws one validator (32 units) of the native restaking token for staker si through the precompile.
+func (w *genWorld) nst(method string, si int, vpk string) string {
+	c := w.c
+	abis := xbLoadABIs(c)
+	amt := new(big.Int).Mul(big.NewInt(32), new(big.Int).Exp(big.NewInt(10), big.NewInt(18), nil))
+	data, err := abis.assets.Pack(method, uint32(c.LzID), []byte(vpk), pad32(w.stakers[si].Bytes()), amt)
+	if err != nil {
+		return "pack:" + err.Error()
+	}
+	m := abis.assets.Methods[method]
+	w.note("evm assets.%s from=gateway staker=%d validator=%s amount=32e18", method, si, vpk)
+	return xbEvmCall(c, c.Funded.Eth, xbAssetsAddr, data, &m).Class()
 }
 
 func domGenesis(env *Env) error {
@@ -439,6 +558,34 @@ func domGenesis(env *Env) error {
 			env.Note("directed-D3-setup-failed")
 		}
 		w.runOne(0, true, 4)
+		// directed 4: a native-token delegation (signed MsgDelegation in DeliverTx): x/delegation writes an operator pool
+		// row under ExocoreAssetID, a token that x/assets does not list
+		w = newGenWorld(env, rng, env.Report.Seed*1000+904)
+		c = w.c
+		c.EndAndBegin(time.Minute)
+		env.Outcome("directed:D4 native delegation=" + w.nativeDelegate(1, 12345))
+		w.runOne(0, true, 4)
+		// directed 5: a client chain with 32-byte addresses and one of its tokens, registered through the assets precompile
+		// from the gateway (the admission checks are addressLength >= 20 and len(token address) >= addressLength)
+		w = newGenWorld(env, rng, env.Report.Seed*1000+905)
+		c = w.c
+		c.EndAndBegin(time.Minute)
+		env.Outcome("directed:D5 " + w.registerWideChain(207, 32))
+		w.runOne(0, true, 4)
+		// directed 6 / 7: native restaking through the assets precompile. Two stakers deposit one validator each; the first
+		// withdraws it (D6: the second staker's stored StakerIndex is stale), then the second one too (D7: the staker
+		// list entry of the asset stays, empty, without any staker info)
+		for _, both := range []bool{false, true} {
+			w = newGenWorldCfg(env, rng, env.Report.Seed*1000+906, true)
+			c = w.c
+			c.EndAndBegin(time.Minute)
+			r := []string{w.nst("depositNST", 0, "vpk-a"), w.nst("depositNST", 1, "vpk-b"), w.nst("withdrawNST", 0, "vpk-a")}
+			if both {
+				r = append(r, w.nst("withdrawNST", 1, "vpk-b"))
+			}
+			env.Outcome(fmt.Sprintf("directed:D%d nst=%s", map[bool]int{false: 6, true: 7}[both], strings.Join(r, "/")))
+			w.runOne(0, true, 4)
+		}
 	}
 	for hi := 0; hi < n; hi++ {
 		w := newGenWorld(env, rng, env.Report.Seed*1000+uint64(hi))
